@@ -25,27 +25,37 @@ into a person vector, everything else stays on its entity — real formulas that
 a numpy shape error); every input vector has its entity's size.
 `Closed d sel gsel` — indices valid and duplicate-free, a person is kept iff its group is kept.
 
-Domain note.  The formula language modelled here (`DExpr`) has no n-th-member / first-person read
-(their result is *defined* by storage order); so the permutation theorems hold for the whole
-language, like the merge theorems.  Inputs are whole vectors per (variable, period): the part
+Domain note.  The formula language modelled here (`DExpr`) has the sum over members, the
+projection onto persons and the role operations that are functions of the SET of role holders of
+a group (role-filtered sum, value of the unique-role member = `value_from_person` / the role
+projector, number of role holders, any).  It deliberately has no n-th-member / first-person / rank
+read: their result is *defined* by storage order ("this position is arbitrary"), so the
+permutation clause of the property is false of them by definition.  For the language as it is the
+permutation theorems hold without restriction, like the merge theorems.  Inputs are whole vectors per (variable, period): the part
 alone has an input exactly where the merged population has one.
 -/
 set_option linter.unusedSectionVars false
+set_option linter.unusedSimpArgs false
 set_option linter.unusedVariables false
 namespace OFCore
 open OFCore.Engine OFCore.RuleSys OFCore.Equivariance
 
 /-! Concrete merged population used by the non-vacuity examples: five persons, three households,
 stored interleaved.  Situation A = households 0 and 2 with persons 1, 3, 4; situation B =
-household 1 with persons 0 and 2.  `v0` person input, `v1` = household sum of `v0`,
-`v2` = `v0` + projection of `v1` (a person's result mentions every member of its household). -/
+household 1 with persons 0 and 2.  Roles: 2 = head (unique), 1 = parent, 0 = plain member; the
+heads are persons 0 (of household 1), 3 (of household 2), 4 (of household 0): listed in another
+order than their households.  `v0` person input, `v1` = household sum of `v0`,
+`v2` = `v0` + projection of `v1` (a person's result mentions every member of its household),
+`v3` = the head's `v0` (`value_from_person`, role operation 22). -/
 def c11Jan : Period := ⟨.month, ⟨2018, 1, 1⟩, 1⟩
 def c11D : Decl :=
   ⟨5, 3, [1, 0, 1, 2, 0], 1,
    [⟨0, .int, .month, 7, false, none, false, []⟩,
     ⟨1, .int, .month, 0, false, none, false, [(1, .op1 1 (.var 0 .same false))]⟩,
-    ⟨0, .int, .month, 0, false, none, false, [(1, .op2 0 (.var 0 .same false) (.op1 2 (.var 1 .same false)))]⟩],
-   [(0, c11Jan, [10, 20, 30, 40, 50])]⟩
+    ⟨0, .int, .month, 0, false, none, false, [(1, .op2 0 (.var 0 .same false) (.op1 2 (.var 1 .same false)))]⟩,
+    ⟨1, .int, .month, 0, false, none, false, [(1, .op1 22 (.var 0 .same false))]⟩],
+   [(0, c11Jan, [10, 20, 30, 40, 50])],
+   [2, 0, 1, 2, 2]⟩
 
 /-- the hypotheses of every theorem below are satisfiable: the example is well-formed, both
     situations are closed order-preserving selections, and a reordering is a permutation -/
@@ -64,24 +74,51 @@ theorem C11_expr_equivariant (d : Decl) (armed sel gsel : List Nat) (hwf : WF d)
   have hsim := sim_restrict (armed := armed) hwf hcl
   exact (denE_sim_step hsim.armed n (den_sim hsim n) _ _ _ (elabExpr_rel hwf.1 hcl p e ent hwt)).1
 
-/-- the two group operations in isolation: the household sums of the part are the merged
-    household sums of the kept households, the projection onto the part's persons is the merged
-    projection at the kept persons -/
+/-- the group operations in isolation: the household sums of the part are the merged household
+    sums of the kept households, the projection onto the part's persons is the merged projection
+    at the kept persons, and every role operation (codes 10–49: role-filtered sum, value of the
+    unique-role member, number of role holders, any) of the part is the merged one at the kept
+    households -/
 theorem C11_group_ops_equivariant (d : Decl) (sel gsel : List Nat) (hwf : WF d) (hcl : Closed d sel gsel) :
     (∀ x : Val, x.length = d.nP →
         RuleSys.f1 (restrict d sel gsel) 1 (reindex sel x) = reindex gsel (RuleSys.f1 d 1 x)) ∧
     (∀ y : Val, y.length = d.nG →
-        RuleSys.f1 (restrict d sel gsel) 2 (reindex gsel y) = reindex sel (RuleSys.f1 d 2 y)) := by
-  constructor
+        RuleSys.f1 (restrict d sel gsel) 2 (reindex gsel y) = reindex sel (RuleSys.f1 d 2 y)) ∧
+    (∀ o : Nat, isRoleOp o = true → ∀ x : Val, x.length = d.nP →
+        RuleSys.f1 (restrict d sel gsel) o (reindex sel x) = reindex gsel (RuleSys.f1 d o x)) := by
+  refine ⟨?_, ?_, ?_⟩
   · intro x hx
     have := (f1_sim_sum hwf.1 hcl 1 (by decide) x (by simpa [ID, Decl.size] using hx)).2
     simpa [TD, idxFor] using this
   · intro y hy
     have := (f1_sim_proj hwf.1 hcl 1 (by decide) y (by simpa [ID, Decl.size] using hy)).2
     simpa [TD, idxFor] using this
+  · intro o ho x hx
+    have := (f1_sim_role hwf.1 hcl o ho 1 (by decide) x (by simpa [ID, Decl.size] using hx)).2
+    simpa [TD, idxFor] using this
 
 example : RuleSys.f1 (restrict c11D [1, 3, 4] [0, 2]) 1 (reindex [1, 3, 4] [10, 20, 30, 40, 50]) = [70, 40] ∧
     reindex [0, 2] (RuleSys.f1 c11D 1 [10, 20, 30, 40, 50]) = [70, 40] := by decide
+
+/-- the head's value per household: merged `[50, 10, 40]` (heads are persons 4, 0, 3); situation A
+    alone `[50, 40]`; under the reordering `[4, 2, 0, 3, 1]` / `[2, 0, 1]`: `[40, 50, 10]`; number
+    of parents (role 1) per household: `[0, 1, 0]` -/
+example : RuleSys.f1 c11D 22 [10, 20, 30, 40, 50] = [50, 10, 40] ∧
+    RuleSys.f1 (restrict c11D [1, 3, 4] [0, 2]) 22 (reindex [1, 3, 4] [10, 20, 30, 40, 50]) = [50, 40] ∧
+    RuleSys.f1 (permute c11D [4, 2, 0, 3, 1] [2, 0, 1]) 22 (reindex [4, 2, 0, 3, 1] [10, 20, 30, 40, 50]) = [40, 50, 10] ∧
+    RuleSys.f1 c11D 31 [0, 0, 0, 0, 0] = [0, 1, 0] ∧ isRoleOp 22 = true := by decide
+
+/-- What the unique-role operation means: in a group with exactly one holder `i` of role `r` it is
+    that person's value, whatever the storage order; in a group without holder it is 0 (the
+    default of `value_from_person`). -/
+theorem C11_from_role_value (d : Decl) (r : Nat) (x : Val) (g : Nat) :
+    (∀ i, i < d.mem.length → (d.mem.getD i 0 = g ∧ d.roles.getD i 0 = r) →
+      (∀ k, k < d.mem.length → d.mem.getD k 0 = g ∧ d.roles.getD k 0 = r → k = i) →
+      roleSum d r x g = x.getD i 0) ∧
+    ((∀ k, k < d.mem.length → ¬(d.mem.getD k 0 = g ∧ d.roles.getD k 0 = r)) → roleSum d r x g = 0) :=
+  ⟨fun i hi hh hu => roleSum_unique d r x g i hi hh hu, roleSum_none d r x g⟩
+
+example : roleSum c11D 2 [10, 20, 30, 40, 50] 0 = 50 ∧ roleSum c11D 1 [10, 20, 30, 40, 50] 0 = 0 := by decide
 
 /-- MERGE.  For every closed selection — in particular every order-preserving one, i.e. any
     situation of a population made of any number of unrelated situations interleaved in any
@@ -121,11 +158,13 @@ example : (reindex [1, 3, 4] [50, 90, 70, 80, 120]).getD (posIn [1, 3, 4] 3) 0 =
 example : den (elabSys c11D []) 4 2 c11Jan = some (.ok [50, 90, 70, 80, 120]) ∧
     den (elabSys (restrict c11D [1, 3, 4] [0, 2]) []) 4 2 c11Jan = some (.ok [90, 80, 120]) ∧
     den (elabSys (restrict c11D [0, 2] [1]) []) 4 2 c11Jan = some (.ok [50, 70]) ∧
-    den (elabSys (restrict c11D [1, 3, 4] [0, 2]) []) 4 1 c11Jan = some (.ok [70, 40]) := by
+    den (elabSys (restrict c11D [1, 3, 4] [0, 2]) []) 4 1 c11Jan = some (.ok [70, 40]) ∧
+    den (elabSys c11D []) 4 3 c11Jan = some (.ok [50, 10, 40]) ∧
+    den (elabSys (restrict c11D [0, 2] [1]) []) 4 3 c11Jan = some (.ok [10]) := by
   simp [den, denE, elabSys, formulaInForce, pickFormula, pickStep, elabExpr, elabRead, applyPT, servedPeriod,
     inputLookup, startOrdOf, storageKey, Decl.size, RuleSys.f1, f2, castTo, ord, dby, dbm, isLeap, Int.max_def, c11D, c11Jan,
     restrict, selVar,
-    reindex, idxFor, posIn]
+    reindex, idxFor, posIn, roleSum, isRoleOp]
   decide
 
 /-- The part simulated alone is itself a well-formed declaration (so the theorems apply again to
@@ -166,7 +205,7 @@ example : den (elabSys (permute c11D [4, 2, 0, 3, 1] [2, 0, 1]) []) 4 2 c11Jan =
   simp [den, denE, elabSys, formulaInForce, pickFormula, pickStep, elabExpr, elabRead, applyPT, servedPeriod,
     inputLookup, startOrdOf, storageKey, Decl.size, RuleSys.f1, f2, castTo, ord, dby, dbm, isLeap, Int.max_def, c11D, c11Jan,
     restrict, selVar,
-    reindex, idxFor, posIn]
+    reindex, idxFor, posIn, roleSum, isRoleOp]
 
 /-- the rule system of the part is ranked by the same ranks as the merged one -/
 theorem C11_ranked_restrict (d : Decl) (armed sel gsel : List Nat) (hwf : WF d) (hcl : Closed d sel gsel)
@@ -225,13 +264,13 @@ example : VarRanked (elabSys c11D []) (fun v => v) ∧ 1 ≤ c11D.msl ∧
   match v with
   | 0 => simp [formulaInForce, pickFormula] at hf
   | 1 =>
-    simp [formulaInForce, pickFormula, pickStep, elabExpr, elabRead, applyPT] at hf
+    simp [formulaInForce, pickFormula, pickStep, elabExpr, elabRead, applyPT, isRoleOp] at hf
     obtain ⟨_, rfl⟩ := hf
     split at hk
     · simp only [refs, List.mem_singleton] at hk; subst hk; exact Nat.zero_lt_one
     · simp [refs] at hk
   | 2 =>
-    simp [formulaInForce, pickFormula, pickStep, elabExpr, elabRead, applyPT] at hf
+    simp [formulaInForce, pickFormula, pickStep, elabExpr, elabRead, applyPT, isRoleOp] at hf
     obtain ⟨_, rfl⟩ := hf
     split at hk
     · simp only [refs, List.mem_append, List.mem_singleton] at hk
@@ -239,7 +278,13 @@ example : VarRanked (elabSys c11D []) (fun v => v) ∧ 1 ≤ c11D.msl ∧
       · subst hk; exact Nat.zero_lt_two
       · subst hk; exact Nat.one_lt_two
     · simp [refs] at hk
-  | v + 3 => simp at hf
+  | 3 =>
+    simp [formulaInForce, pickFormula, pickStep, elabExpr, elabRead, applyPT, isRoleOp] at hf
+    obtain ⟨_, rfl⟩ := hf
+    split at hk
+    · simp only [refs, List.mem_singleton] at hk; subst hk; exact Nat.zero_lt_succ _
+    · simp [refs] at hk
+  | v + 4 => simp at hf
 
 /-- the example system has no eternal variable: it is slot-coherent -/
 example : SlotCoherent (elabSys c11D []) := by
@@ -249,7 +294,8 @@ example : SlotCoherent (elabSys c11D []) := by
   | 0 => simp [c11D] at hv; subst hv; cases hu
   | 1 => simp [c11D] at hv; subst hv; cases hu
   | 2 => simp [c11D] at hv; subst hv; cases hu
-  | v + 3 => simp [c11D] at hv
+  | 3 => simp [c11D] at hv; subst hv; cases hu
+  | v + 4 => simp [c11D] at hv
 
 /-- `calculate_add`: a sum of per-sub-period results of the part is the merged sum read at the
     part's indices -/
